@@ -100,6 +100,9 @@ def judge(path):
     state = None
     hist = []
     seqkey = None
+    alpha = {}
+    pending_prefix = None
+    last_actual, last_snap_text = None, None
 
     def cnt(k):
         c[k] = c.get(k, 0) + 1
@@ -125,10 +128,28 @@ def judge(path):
                                         "editing the jwt_t inside the generate callback changed the builder's own headers/claims",
                                         dict(seq=ev[1], target=TARGETS[ev[2]], ops=[h[3:11] for h in hist[-8:]], builder_before=[ev[3], ev[4]], builder_after=[ev[5], ev[6]])))
                 continue
+            if ev[0] == "A":
+                alpha[ev[1]] = ev
+                continue
+            if ev[0] == "Q":
+                pending_prefix = ev[3]
+                continue
             if ev[0] == "N":
+                prefix, pending_prefix = pending_prefix, None
                 state = {"alg": "none"} if ev[2] == 4 else ({"a": 5, "b": "s", "n": {"k": [1, 2]}} if ev[2] in (2, 3) else {})
                 hist = []
                 seqkey = (ev[1], ev[2])
+                last_actual, last_snap_text = None, None
+                if prefix:
+                    # unlogged prefix of a full-length exhaustive sequence: replay it on the model (judged as a shorter sequence elsewhere)
+                    for ai in prefix:
+                        a_ = alpha[ai]
+                        before = json.loads(json.dumps(state))
+                        rc_, _ = model_apply(state, a_[2], a_[3], a_[4], a_[5], a_[6])
+                        if rc_ == UNJ:
+                            state.clear(); state.update(before)
+                        hist.append(["O", ev[1], ev[2], a_[2], a_[3], a_[4], a_[5], a_[6], "(prefix, not logged)", None, None, None])
+                        cnt("ops.replayed_prefix")
                 continue
             if ev[0] == "STATS":
                 out["n"] += ev[1]
@@ -145,10 +166,14 @@ def judge(path):
             opdesc = "%s:%s" % (kind, tname)
             if kind != "D" and rc != verr:
                 viol("rc-differs-from-value.error:%s" % opdesc, "call returned %d but stored %d in value.error" % (rc, verr), ev)
-            try:
-                actual = json.loads(snap) if snap is not None else None
-            except Exception:
-                actual = None
+            if snap == 1:
+                actual, snap = last_actual, last_snap_text      # object unchanged since the previous logged operation
+            else:
+                try:
+                    actual = json.loads(snap) if snap is not None else None
+                except Exception:
+                    actual = None
+                last_actual, last_snap_text = actual, snap
             if typ == STR and kind == "S" and value is not None:
                 try:
                     value.encode("latin-1").decode("utf-8")
